@@ -27,6 +27,9 @@ MUTATE = {"makedirs", "mkdir", "rm", "rm_file", "rmdir", "mv", "move", "open", "
 TRACKED = sorted(OBSERVE | MUTATE | {"invalidate_cache"})
 
 
+_REPO_PKG = os.environ.get("VERIF_REPO", "/repo") + "/spatialpandas/"
+
+
 class RecordingFS(LocalFileSystem):
     cachable = False
 
@@ -58,7 +61,7 @@ class RecordingFS(LocalFileSystem):
         origin, task = None, "main"
         while f is not None:
             fn = f.f_code.co_filename
-            if fn.startswith("/repo/spatialpandas/"):
+            if fn.startswith(_REPO_PKG):
                 name = f.f_code.co_name
                 if origin is None:
                     origin = name
